@@ -35,7 +35,7 @@ Section P.
   Lemma step0_nostop (w : world) t : wstop w = false -> wstop (step0 w t) = false.
   Proof.
     intros H. unfold step. rewrite H. destruct t as [a c|a c row trd sts|a].
-    - destruct (match a with NoAd => _ | _ => _ end). reflexivity.
+    - cbn [raises]; rewrite andb_false_r; destruct (match a with NoAd => (ast0, _) | _ => _ end). reflexivity.
     - cbn [raises]. destruct (w_chain _ _ _ _ _ _ w c) as [s r]. destruct (iter_fn a _ _ s r) as [[[[s' stat] r'] ast'] p'].
       rewrite andb_false_r. reflexivity.
     - destruct (match a with NoAd => _ | _ => _ end). reflexivity.
@@ -48,6 +48,8 @@ Section P.
   Proof.
     unfold step. destruct (wstop w) eqn:Hs; [intros H; rewrite H in Hs; discriminate|].
     destruct t as [a c|a c row trd sts|a]; try reflexivity.
+    { destruct ((match a with NoAd => false | _ => true end) && raises intr (w_k _ _ _ _ _ _ w)) eqn:R0; [cbn; discriminate|].
+      cbn [raises]. rewrite andb_false_r. reflexivity. }
     cbn [raises]. destruct (raises intr (w_k _ _ _ _ _ _ w)) eqn:R1; [cbn; discriminate|].
     destruct (w_chain _ _ _ _ _ _ w c) as [s r]. destruct (iter_fn a _ _ s r) as [[[[s' stat] r'] ast'] p'].
     destruct (trd && raises intr (S (w_k _ _ _ _ _ _ w))) eqn:R2; [cbn; discriminate|].
@@ -76,7 +78,7 @@ Section P.
   Proof.
     unfold step. destruct (wstop w); [exists []; rewrite app_nil_r; reflexivity|].
     destruct t as [a c0|a c0 row trd sts|a].
-    - destruct (match a with NoAd => _ | _ => _ end). exists []. rewrite app_nil_r. reflexivity.
+    - cbn [raises]; rewrite andb_false_r; destruct (match a with NoAd => (ast0, _) | _ => _ end). exists []. rewrite app_nil_r. reflexivity.
     - cbn [raises]. destruct (w_chain _ _ _ _ _ _ w c0) as [s r]. destruct (iter_fn a _ _ s r) as [[[[s' stat] r'] ast'] p'].
       rewrite andb_false_r. cbn [w_hist]. destruct sts; [|exists []; rewrite app_nil_r; reflexivity].
       unfold upd. destruct (Nat.eqb_spec c c0) as [->|]; [eexists; reflexivity | exists []; rewrite app_nil_r; reflexivity].
@@ -91,7 +93,7 @@ Section P.
   Proof.
     unfold step. destruct (wstop w); [exists []; rewrite app_nil_r; reflexivity|].
     destruct t as [a c0|a c0 row trd sts|a].
-    - destruct (match a with NoAd => _ | _ => _ end). exists []. rewrite app_nil_r. reflexivity.
+    - cbn [raises]; rewrite andb_false_r; destruct (match a with NoAd => (ast0, _) | _ => _ end). exists []. rewrite app_nil_r. reflexivity.
     - cbn [raises]. destruct (w_chain _ _ _ _ _ _ w c0) as [s r]. destruct (iter_fn a _ _ s r) as [[[[s' stat] r'] ast'] p'].
       rewrite andb_false_r. cbn [w_parlog]. eexists; reflexivity.
     - destruct (match a with NoAd => _ | _ => _ end). exists []. rewrite app_nil_r. reflexivity.
@@ -141,7 +143,7 @@ Section P.
     Dense (step0 w t) /\ (forall c, length (whist (step0 w t) c) = lens_after (fun c => length (whist w c)) t c).
   Proof.
     intros Hs HD Hok. unfold Dense in *. unfold step. rewrite Hs. destruct t as [a c0|a c0 row trd sts|a].
-    - destruct (match a with NoAd => _ | _ => _ end). split; [exact HD | reflexivity].
+    - cbn [raises]; rewrite andb_false_r; destruct (match a with NoAd => (ast0, _) | _ => _ end). split; [exact HD | reflexivity].
     - cbn [raises]. destruct (w_chain _ _ _ _ _ _ w c0) as [s r] eqn:Ec. destruct (iter_fn a _ _ s r) as [[[[s' stat] r'] ast'] p'].
       rewrite andb_false_r. destruct Hok as [Htrd Hrow]. cbn [lens_after].
       destruct sts.
@@ -307,7 +309,9 @@ Section P.
      \/ (forall c r, wst wk c r = wst (step0 wp t) c r) /\ wparlog wk = wparlog (step0 wp t)).
   Proof.
     intros Sp. unfold step. rewrite Sp. destruct t as [a c0|a c0 row trd sts|a].
-    - destruct (match a with NoAd => _ | _ => _ end). cbn [w_stop]. intros Hf; discriminate Hf.
+    - destruct ((match a with NoAd => false | _ => true end) && raises (Some k) (w_k _ _ _ _ _ _ wp)) eqn:R0.
+      + intros _. cbn. auto.
+      + destruct (match a with NoAd => (ast0, _) | _ => _ end). cbn [w_stop]. intros Hf; discriminate Hf.
     - destruct (raises (Some k) (w_k _ _ _ _ _ _ wp)) eqn:R1.
       + intros _. cbn. auto.
       + destruct (w_chain _ _ _ _ _ _ wp c0) as [s r]. destruct (iter_fn a _ _ s r) as [[[[s' stat] r'] ast'] p'].
@@ -409,7 +413,7 @@ Section P.
   Proof.
     intros Ht. unfold step. destruct (wstop w); [split; [reflexivity|exists []; rewrite app_nil_r; auto]|].
     destruct t as [a c0|a c0 row trd sts|a]; cbn in Ht; subst a.
-    - split; [reflexivity|exists []; rewrite app_nil_r; auto].
+    - cbn [andb]. split; [reflexivity|exists []; rewrite app_nil_r; auto].
     - cbn [raises]. destruct (w_chain _ _ _ _ _ _ w c0) as [s r]. pose proof (iter_noad (wpar w) (w_ast _ _ _ _ _ _ w c0) s r) as Hp.
       destruct (iter_fn NoAd _ _ s r) as [[[[s' stat] r'] ast'] p']. cbn in Hp. subst p'. rewrite andb_false_r. cbn [w_par w_parlog].
       split; [reflexivity|]. eexists; split; [reflexivity|]. constructor; auto.
